@@ -24,6 +24,7 @@ def _norm(g: dict) -> dict:
 
 
 class Goldens:
+    scale = 1
     """Per-batch cache of golden results. A and B are computed in two different
     processes (hash seed, ASLR, cwd, path style, lint differ) and must agree; a
     seeded sample is recomputed alone in a pristine process (variant P)."""
@@ -108,7 +109,7 @@ def confirm_wall(plan: dict, v: dict):
 def run_seed(prop: str, seed: int, gold: Goldens):
     mode = "c09" if prop == "C09" else "c18"
     t0 = time.monotonic()
-    plan0, keys = gen_compiler.gen_plan(seed, mode)
+    plan0, keys = gen_compiler.gen_plan(seed, mode, getattr(gold, "scale", 1))
     out = {"seed": seed, "violations": [], "stats": {}, "execs": []}
     goldens = gold.get(seed, keys) if (prop == "C18" and keys) else {}
     for k, g in goldens.items():
@@ -353,8 +354,10 @@ def replay(prop: str, path: str):
 
 
 # ------------------------------------------------------------------ plumbing
-def new_context(prop: str):
-    return Goldens()
+def new_context(prop: str, tier: str = "quick"):
+    g = Goldens()
+    g.scale = 2 if tier == "thorough" else 1
+    return g
 
 
 def simfs_fidelity():
@@ -485,7 +488,7 @@ def evidence(prop, tier, base_seed, done, selftest_info, wall, t_runs, nviol, kn
     samples = []
     mode = "c09" if prop == "C09" else "c18"
     for r in done[:3]:
-        plan, _ = gen_compiler.gen_plan(r["seed"], mode)
+        plan, _ = gen_compiler.gen_plan(r["seed"], mode, 2 if tier == "thorough" else 1)
         samples.append(
             {
                 "seed": r["seed"],
